@@ -1,0 +1,39 @@
+//! Verification-only tuning knobs, compiled only with `--cfg redb_verif`.
+//!
+//! Internal batch sizes that a small simulated workload would otherwise never cross can be
+//! lowered per thread, so that the simulator exercises the chunk boundaries. The values are
+//! thread-local: simulated runs executing concurrently on other threads are not affected.
+//! A value of 0 means "use the built-in constant". Without the cfg flag this module does not
+//! exist and the constants apply.
+
+use std::cell::Cell;
+
+thread_local! {
+    static FREED_PAGES_CHUNK: Cell<usize> = const { Cell::new(0) };
+    static INSERT_FLUSH_BYTES: Cell<usize> = const { Cell::new(0) };
+}
+
+/// Number of pages per record of the freed-page / allocated-page system tables (default 400)
+pub fn set_freed_pages_chunk_size(pages: usize) {
+    FREED_PAGES_CHUNK.with(|c| c.set(pages));
+}
+
+pub(crate) fn freed_pages_chunk_size(default: usize) -> usize {
+    match FREED_PAGES_CHUNK.with(Cell::get) {
+        0 => default,
+        n => n,
+    }
+}
+
+/// Bytes of pending cursor inserts that trigger a splice (default 1 MiB)
+pub fn set_insert_flush_bytes(bytes: usize) {
+    INSERT_FLUSH_BYTES.with(|c| c.set(bytes));
+}
+
+#[cfg(feature = "experimental_cursor")]
+pub(crate) fn insert_flush_bytes(default: usize) -> usize {
+    match INSERT_FLUSH_BYTES.with(Cell::get) {
+        0 => default,
+        n => n,
+    }
+}
